@@ -1,5 +1,5 @@
 """Classes of Defaults.tla: one trait of every default kind, a subclass overriding defaults."""
-from traits.api import (HasTraits, Int, List, Dict, Set, Any, Instance, Tuple, Union, ComparisonMode)
+from traits.api import (HasTraits, Int, List, Dict, Set, Any, Instance, Tuple, Union, ComparisonMode, Map, Array, TraitType)
 
 COUNTS = {}
 
@@ -12,7 +12,27 @@ class Box(HasTraits):
     items = List(Int)
 
 
+class HookFault(RuntimeError):
+    pass
+
+
+class PF(TraitType):
+    """its post_setattr hook raises the first time it is called for an object (a fault AFTER the value was stored)"""
+    default_value = 11
+
+    def validate(self, object, name, value):
+        return value
+
+    def post_setattr(self, object, name, value):
+        _count(object, "pf_hook")
+        if COUNTS[(id(object), "pf_hook")] == 1:
+            raise HookFault("post_setattr hook fails once")
+
+
 class Base(HasTraits):
+    mp = Map({"a": 1, "b": 2}, default_value="a")
+    arr = Array()
+    pf = PF()
     c_int = Int(3)
     o_int = Int(4)
     n_int = Int(2, comparison_mode=ComparisonMode.none)
@@ -31,6 +51,10 @@ class Base(HasTraits):
     def _m_dyn_default(self):
         _count(self, "m_dyn")
         return 7
+
+    def _pf_default(self):
+        _count(self, "pf")
+        return 11
 
     def _m_list_default(self):
         _count(self, "m_list")
